@@ -374,8 +374,13 @@ InfoConfig(e) ==
 -----------------------------------------------------------------------------
 (* SIGUSR1: conf_read() succeeds and iauth_xquery_services_changed() rebuilds the table.       *)
 (* e.svcs = new section as a sequence of [name, type] in name order.                           *)
-RECURSIVE ConfigService(_, _)
-ConfigService(sl, sv) ==
+\* add = FALSE: only a service the table already has is updated; a new one is refused if its slot would be beyond the
+\* 32 bits of the per-client masks
+ConfigService(sl, sv, add) ==
+    IF ~add /\ {s \in 1..Len(sl) : sl[s].used /\ sl[s].name = sv.name} = {} THEN sl
+    ELSE IF {s \in 1..Len(sl) : sl[s].used /\ sl[s].name = sv.name} = {} /\ {s \in 1..Len(sl) : ~sl[s].used} = {} /\ Len(sl) >= 32
+    THEN sl
+    ELSE
     LET have == {s \in 1..Len(sl) : sl[s].used /\ sl[s].name = sv.name}
         s0 == IF have # {} THEN CHOOSE s \in have : \A s2 \in have : s <= s2
               ELSE LET empty == {s \in 1..Len(sl) : ~sl[s].used}
@@ -387,14 +392,14 @@ ConfigService(sl, sv) ==
        THEN [base EXCEPT ![s0].type = sv.type, ![s0].configured = TRUE]
        ELSE [base EXCEPT ![s0].configured = FALSE]
 
-RECURSIVE ConfigAll(_, _, _)
-ConfigAll(sl, svcs, n) == IF n > Len(svcs) THEN sl ELSE ConfigAll(ConfigService(sl, svcs[n]), svcs, n + 1)
+RECURSIVE ConfigAll(_, _, _, _)
+ConfigAll(sl, svcs, n, add) == IF n > Len(svcs) THEN sl ELSE ConfigAll(ConfigService(sl, svcs[n], add), svcs, n + 1, add)
 RECURSIVE UnrefAll(_, _)
 UnrefAll(sl, s) == IF s > Len(sl) THEN sl ELSE UnrefAll(Unref(sl, s), s + 1)
 
 ServicesChanged(svcs) ==
     LET cleared == [s \in 1..Len(slots) |-> [slots[s] EXCEPT !.configured = FALSE]]
-    IN UnrefAll(ConfigAll(cleared, svcs, 1), 1)
+    IN UnrefAll(ConfigAll(UnrefAll(ConfigAll(cleared, svcs, 1, FALSE), 1), svcs, 1, TRUE), 1)
 
 Reload(e) ==
     /\ slots' = ServicesChanged(e.svcs)
